@@ -406,8 +406,49 @@ def r17e(ctx, P):
     ctx.floor(rid, n, 8, "potential panic sites in the pre-verification parsers")
 
 
+def r17f(ctx, P):
+    rid = "R17.f"
+    ctx.rule(rid, "GUARD (an existing index is never replaced on open): in Index::open_with_storage the choice between loading the "
+                  "manifest and creating a fresh one is made by `Storage::exists(manifest path)` and `create_if_missing` alone — not by "
+                  "anything read from the file. A damaged manifest (empty, truncated) must make the open fail (Manifest::load), not fall "
+                  "into the create arm, which overwrites MANIFEST.json with an empty index")
+    f = P.fn("searchlite_core::index::Index::open_with_storage")
+    if not ctx.anchor(rid, f, "Index::open_with_storage"):
+        return
+    ctx.saw(f)
+    sl = Slice(f)
+    loads = [b for b, t in f.calls() if callee_of(t) == "searchlite_core::index::manifest::Manifest::load"]
+    creates = [b for b, t in f.calls() if callee_of(t).startswith("searchlite_core::index::manifest::Manifest::") and
+               callee_of(t).rsplit("::", 1)[1] in ("store", "new")]
+    ctx.floor(rid, min(len(loads), len(creates)), 1, "Manifest::load and the create arm in open_with_storage")
+    bad = []
+    ok_tests = 0
+    for cb in creates:
+        for (a, succ) in f.control_deps_transitive(cb):
+            t = f.blocks[a]["term"]
+            if t["k"] != "switch" or any("QuestionMark" in m for m in (t.get("macros") or [])):
+                continue
+            srcs = sl.sources(t["on"])
+            calls = [callee_of(x[2]) for x in srcs if x[0] == "call"]
+            flds = sl.fields(t["on"])
+            if calls and all(c.endswith("Storage::exists") for c in calls):
+                ok_tests += 1
+                continue
+            if not calls and flds and flds <= {"create_if_missing"}:
+                continue
+            if not calls and not flds:
+                continue
+            bad.append((Site(f, a), calls or sorted(flds)))
+    ctx.ob(rid, "%s:open_with_storage:create-arm-by-exists-only" % rid, not bad and ok_tests > 0,
+           "a fresh manifest is written only when Storage::exists(manifest) is false (and create_if_missing allows it)" if not bad and ok_tests else
+           "the create arm of open_with_storage is selected by %s at %s rather than by Storage::exists alone: an index whose manifest is "
+           "damaged can be silently replaced by an empty one" % (bad[0][1] if bad else "no exists() test", bad[0][0].loc() if bad else "?"),
+           bad[0][0].loc() if bad else "%s:%s" % (f.file, f.line))
+
+
 def run(ctx, progs):
     P = progs.get("default")
+    r17f(ctx, P)
     r17a(ctx, P)
     r17b(ctx, P)
     r17c(ctx, P)
